@@ -17,7 +17,7 @@ static void hk_note(void *, int, int, int, int, double) {}
 static void hk_dbg(void *, const char *, ...) {}
 static void hk_loop(void *) {}
 
-struct Inst { pl::Instance in; bool closed = false; bool have_bank = false; OPN2_Bank bank; };
+struct Inst { pl::Instance in; bool closed = false; bool have_bank = false; OPN2_Bank bank; std::set<int> refbanks; };
 typedef std::function<void(Inst &, mcx::Verdict &)> Fn;
 struct Op { std::string name; Fn fn; bool thorough_only; };
 
@@ -37,6 +37,7 @@ struct C03Model : mcx::Model {
             if(n.rfind("rt_systemExclusive(f07f7f0401", 0) == 0) return true;
             return false;
         }
+        if(subset == "banks") return n.rfind("bank:", 0) == 0;   // bank create/remove/lookup histories on ids that share hash buckets, against a set model
         if(subset == "cores") {   // what the real emulator cores see: creation, configuration, register streams, rendering
             if(n.rfind("switchEmulator(", 0) == 0 && n != "switchEmulator(32)" && n != "switchEmulator(33)" && n != "switchEmulator(64)") return true;
             static const char *keep[] = {"setRunAtPcmRate(1)", "setRunAtPcmRate(0)", "setChipType(0)", "setChipType(1)", "setChipType(2)", "setNumChips(1)", "setNumChips(2)", "setNumChips(100)", "rt_noteOn(0,60,127)", "rt_noteOn(9,60,127)", "rt_noteOn(255,255,255)", "rt_noteOff(0,60)",
@@ -82,6 +83,25 @@ struct C03Model : mcx::Model {
         for(GB g : {GB{0, 0, 0, 0, false}, GB{0, 1, 2, OPNMIDI_Bank_Create, false}, GB{1, 0, 0, OPNMIDI_Bank_CreateRt, false}, GB{0, 127, 127, OPNMIDI_Bank_Create, false}, GB{0, 0, 128, OPNMIDI_Bank_Create, true}, GB{0, 128, 0, OPNMIDI_Bank_Create, true}, GB{2, 0, 0, OPNMIDI_Bank_Create, true}, GB{255, 255, 255, 0, true}, GB{0, 0, 0, -1, false}}) {
             snprintf(b, sizeof b, "getBank(%d/%d/%d,flags=%d)", g.perc, g.msb, g.lsb, g.flags); nm = b;
             add(nm, [g, nm](Inst &I, mcx::Verdict &vd) { OPN2_BankId id; id.percussive = (OPN2_UInt8)g.perc; id.msb = (OPN2_UInt8)g.msb; id.lsb = (OPN2_UInt8)g.lsb; OPN2_Bank bk; int rc = opn2_getBank(D, &id, g.flags, &bk); if(g.bad) expect_fail(vd, nm, rc); if(rc == 0) { I.bank = bk; I.have_bank = true; } }); }
+        if(subset == "banks") {
+            // ids chosen to collide in the bank map's hash buckets: melodic 0:0 / percussive 0:0 (bucket 0), melodic 0:1 / 2:1 / 4:1 (bucket 1)
+            struct BId { int perc, msb, lsb; }; static const BId U[] = {{0, 0, 0}, {1, 0, 0}, {0, 0, 1}, {0, 2, 1}, {0, 4, 1}}; const int NU = 5;
+            auto audit = [](Inst &I, mcx::Verdict &vd, const std::string &after) {
+                char t[200];
+                for(int u = 0; u < NU; u++) { OPN2_BankId id; id.percussive = (OPN2_UInt8)U[u].perc; id.msb = (OPN2_UInt8)U[u].msb; id.lsb = (OPN2_UInt8)U[u].lsb; OPN2_Bank bk; int rc = opn2_getBank(D, &id, 0, &bk); bool want = I.refbanks.count(u) != 0;
+                    if(want && rc != 0) { snprintf(t, sizeof t, "after %s: opn2_getBank(find %d/%d/%d) = %d for a bank that exists", after.c_str(), U[u].perc, U[u].msb, U[u].lsb, rc); vd.fail("C03/bank/existing-bank-not-found", t); return; }
+                    if(!want && rc >= 0) { snprintf(t, sizeof t, "after %s: opn2_getBank(find %d/%d/%d) = %d for a bank that does not exist (documented to fail with a negative value)", after.c_str(), U[u].perc, U[u].msb, U[u].lsb, rc); vd.fail("C03/bank/lookup-of-absent-bank-succeeded", t); return; } }
+                OPN2_Bank it; size_t n = 0; if(opn2_getFirstBank(D, &it) == 0) { n = 1; while(opn2_getNextBank(D, &it) == 0 && n < 5000) n++; }
+                if(n >= 5000) { vd.fail("C03/bank/enumeration-does-not-end", "after " + after + ": opn2_getNextBank still delivers banks after 5000 steps"); return; }
+                if(n != I.refbanks.size()) { snprintf(t, sizeof t, "after %s: enumeration visits %zu bank(s), %zu exist", after.c_str(), n, I.refbanks.size()); vd.fail("C03/bank/enumeration-count", t); return; } };
+            for(int u = 0; u < NU; u++) {
+                snprintf(b, sizeof b, "bank:create(%d/%d/%d)", U[u].perc, U[u].msb, U[u].lsb); nm = b;
+                add(nm, [u, nm, audit](Inst &I, mcx::Verdict &vd) { OPN2_BankId id; id.percussive = (OPN2_UInt8)U[u].perc; id.msb = (OPN2_UInt8)U[u].msb; id.lsb = (OPN2_UInt8)U[u].lsb; OPN2_Bank bk; int rc = opn2_getBank(D, &id, OPNMIDI_Bank_Create, &bk); if(rc != 0) { vd.fail("C03/bank/create-failed", nm + " returned " + std::to_string(rc)); return; } I.refbanks.insert(u); audit(I, vd, nm); });
+                snprintf(b, sizeof b, "bank:remove(%d/%d/%d)", U[u].perc, U[u].msb, U[u].lsb); nm = b;
+                add(nm, [u, nm, audit](Inst &I, mcx::Verdict &vd) { OPN2_BankId id; id.percussive = (OPN2_UInt8)U[u].perc; id.msb = (OPN2_UInt8)U[u].msb; id.lsb = (OPN2_UInt8)U[u].lsb; OPN2_Bank bk; int rc = opn2_getBank(D, &id, 0, &bk); if(rc == 0) { opn2_removeBank(D, &bk); I.refbanks.erase(u); } audit(I, vd, nm); });
+            }
+            add("bank:reserveBanks(8)", [audit](Inst &I, mcx::Verdict &vd) { opn2_reserveBanks(D, 8); audit(I, vd, "reserveBanks(8)"); });
+        }
         add("getFirstBank()", [](Inst &I, mcx::Verdict &) { OPN2_Bank bk; if(opn2_getFirstBank(D, &bk) == 0) { I.bank = bk; I.have_bank = true; } });
         add("getNextBank(handle)", [](Inst &I, mcx::Verdict &) { if(!I.have_bank) return; OPN2_Bank bk = I.bank; if(opn2_getNextBank(D, &bk) == 0) I.bank = bk; });
         add("getBankId(handle)", [](Inst &I, mcx::Verdict &) { if(!I.have_bank) return; OPN2_BankId id; opn2_getBankId(D, &I.bank, &id); });
@@ -191,6 +211,7 @@ int main(int argc, char **argv) {
     C03Model m; m.thorough = a.tier == "thorough"; if(a.extra.count("subset")) m.subset = a.extra["subset"];
     m.starts = {"fresh", "bank", "smf-half", "xmi", "rsxx", "drums2chips", "busy1chip"};
     if(!m.subset.empty()) m.starts = {"bank", "drums2chips", "busy1chip"};
+    if(m.subset == "banks") m.starts = {"fresh"};
     if(m.subset == "cores") m.starts = {"bank", "smf-half"};
     m.build();
     // coverage of the exported API: every opn2_* function declared in the header must be reached by the op table
